@@ -69,6 +69,13 @@ def check(run, P):
              "variables", minimum=5)
     run.rule("C12.visitors", "type-visitor member loops never leave the loop early",
              minimum=2)
+    run.rule("C12.fresh", "inside a loop of the Fortran generator no value is used "
+             "that is only ever computed inside a different loop (a stale left-over "
+             "of the last iteration of that loop)", minimum=15)
+    run.rule("C12.allocatable", "is_allocatable: leaves answer by their own kind, "
+             "aggregates ask every component recursively", minimum=4)
+    _fresh(run, P)
+    _allocatable(run, P)
     _exit(run, P)
     _move(run, P)
     _alloc(run, P)
@@ -465,3 +472,128 @@ def _visitors(run, P):
                            "later pointer member")
     if n < 2:
         raise AnalysisError("fewer than two StructureType member loops found")
+
+
+def stale_loop_values(fn):
+    """Names loaded inside a loop of *fn* all of whose definitions lie inside
+    loops that do not enclose the use."""
+    par = {}
+    for n in ast.walk(fn):
+        for c in ast.iter_child_nodes(n):
+            par[c] = n
+
+    def loops_of(n):
+        ls = []
+        while n in par:
+            p = par[n]
+            if isinstance(p, (ast.For, ast.While)) \
+                    and any(n is x for b in p.body for x in ast.walk(b)):
+                ls.append(p)
+            if isinstance(p, (ast.FunctionDef, ast.AsyncFunctionDef, ast.Lambda)) and p is not fn:
+                return None
+            n = p
+        return ls
+
+    defs = {}
+    for n in ast.walk(fn):
+        if isinstance(n, ast.Name) and isinstance(n.ctx, ast.Store):
+            defs.setdefault(n.id, []).append(n)
+        elif isinstance(n, ast.arg):
+            defs.setdefault(n.arg, []).append(None)
+        elif isinstance(n, (ast.Import, ast.ImportFrom)):
+            for a in n.names:
+                defs.setdefault((a.asname or a.name).split(".")[0], []).append(None)
+        elif isinstance(n, (ast.FunctionDef, ast.ClassDef)) and n is not fn:
+            defs.setdefault(n.name, []).append(None)
+        elif isinstance(n, ast.ExceptHandler) and n.name:
+            defs.setdefault(n.name, []).append(None)
+    out = {}
+    n_uses = 0
+    for n in ast.walk(fn):
+        if isinstance(n, ast.Name) and isinstance(n.ctx, ast.Load) and n.id in defs:
+            ul = loops_of(n)
+            if not ul:
+                continue
+            n_uses += 1
+            ds = defs[n.id]
+            if any(d is None for d in ds):
+                continue
+            fine = False
+            for d in ds:
+                dl = loops_of(d)
+                if dl is None or all(any(l is u for u in ul) for l in dl):
+                    fine = True
+                    break
+            if not fine:
+                out.setdefault(n.id, n)
+    return out, n_uses
+
+
+def _fresh(run, P):
+    G = P.cls(GEN)
+    classes = [G] + [P.cls(f"dagrt.codegen.fortran.{n}") for n in (
+        "CodeGeneratingTypeVisitor", "AllocationEmitter", "DeallocationEmitter",
+        "InitializationEmitter", "AssignmentEmitter", "ArrayLoopManager")
+        if P.module("dagrt.codegen.fortran").classes.get(n) is not None]
+    for c in classes:
+        for name, m in sorted(c.methods.items()):
+            if not any(isinstance(x, (ast.For, ast.While)) for x in ast.walk(m.node)):
+                continue
+            stale, n_uses = stale_loop_values(m.node)
+            run.ob("C12.fresh", m, (sorted(stale.values(), key=lambda x: x.lineno)[0]
+                                    if stale else m.node), not stale,
+                   construct=f"{c.name}.{name}: every value used inside a loop is computed "
+                             f"in that loop or before it"
+                             + (f" (stale: {sorted(stale)})" if stale else ""),
+                   why="a per-item value (the Fortran type of the user type in hand) that "
+                       "is only assigned in an earlier loop still holds that loop's last "
+                       "item: every release routine is then generated for the wrong type "
+                       "and nested storage is never freed")
+
+
+def _allocatable(run, P):
+    m = P.module("dagrt.codegen.fortran")
+    base = m.classes.get("TypeBase")
+    if base is None:
+        raise AnalysisError("fortran.TypeBase not found")
+    for c in sorted(P.subclasses(base), key=lambda c: c.name):
+        f = c.methods.get("is_allocatable")
+        if f is None:
+            continue
+        comps = [a for a in (c.methods["__init__"].params[1:] if "__init__" in c.methods else [])
+                 if a in ("element_type", "pointee_type", "members")]
+        rets = [r for r in ast.walk(f.node) if isinstance(r, ast.Return) and r.value is not None]
+        src = " ; ".join(norm(r.value) for r in rets)
+        const = len(rets) == 1 and isinstance(rets[0].value, ast.Constant) \
+            and isinstance(rets[0].value.value, bool)
+        recursive = []
+        for r in rets:
+            for x in ast.walk(r.value):
+                if isinstance(x, ast.Call) and isinstance(x.func, ast.Attribute) \
+                        and x.func.attr == "is_allocatable":
+                    recursive.append(x)
+        uses_isinstance = any(isinstance(x, ast.Call) and dotted(x.func) in ("isinstance", "type")
+                              for x in ast.walk(f.node))
+        if c.name == "PointerType":
+            ok = const and rets[0].value.value is True
+            want = "True (a pointer is what gets allocated)"
+        elif not comps:
+            ok = const and rets[0].value.value is False
+            want = "False (no components)"
+        elif "members" in comps:
+            ok = bool(recursive) and not uses_isinstance and not const and any(
+                isinstance(x, ast.Call) and dotted(x.func) == "any" for r in rets for x in ast.walk(r.value)) \
+                and any("self.members" in norm(g.iter) for r in rets for x in ast.walk(r.value)
+                        if isinstance(x, (ast.GeneratorExp, ast.ListComp)) for g in x.generators)
+            want = "any(<member type>.is_allocatable() for every member)"
+        else:
+            ok = len(recursive) == 1 and not uses_isinstance \
+                and norm(recursive[0].func.value) == f"self.{comps[0]}" and len(rets) == 1 \
+                and rets[0].value is recursive[0]
+            want = f"self.{comps[0]}.is_allocatable()"
+        run.ob("C12.allocatable", f, f.node, ok,
+               construct=f"{c.name}.is_allocatable returns {src}; needs {want}",
+               why="the allocation check and initialize allocate exactly what "
+                   "is_allocatable admits to: a structure that looks only one level "
+                   "down leaves nested pointers unassociated while the assignment code "
+                   "still writes through them")
